@@ -12,10 +12,123 @@ Ltac Zify.zify_post_hook ::= Z.to_euclidean_division_equations.
 Definition thresholds_coherent (c : cfg) : Prop :=
   forall gmin gmax amax, f_gc c = Some (gmin, gmax, amax) -> f_k c - gmin <= amax.
 
-(* TARGET STATEMENTS (to be proved, do not change the statements):
+
+(* ------------------------------------------------------------------------------------------ *)
+(* the last-window verdict on a string of exactly one window                                   *)
 
 (* on a string of exactly k characters the last-window verdict is the whole-sequence verdict *)
 Theorem valid_last_on_window : forall c w, 1 <= f_k c -> Z.of_nat (length w) = f_k c -> valid c true w = valid c false w.
+Proof.
+  intros c w Hk Hl. rewrite valid_last, last_window_is_suffix_partial by exact Hk.
+  replace (length w - Z.to_nat (f_k c))%nat with O by lia. reflexivity.
+Qed.
+
+(* ------------------------------------------------------------------------------------------ *)
+(* list facts                                                                                  *)
+
+Lemma lf_skipn_app_ge : forall (K s : list Z) i, skipn (length K + i) (K ++ s) = skipn i s.
+Proof.
+  induction K as [|x K IH]; intros s i; [reflexivity|]. cbn [length app Nat.add skipn]. apply IH.
+Qed.
+
+Lemma lf_window_shift : forall (k i : nat) (K s : list Z), window k (length K + i) (K ++ s) = window k i s.
+Proof. intros k i K s. unfold window. rewrite lf_skipn_app_ge. reflexivity. Qed.
+
+Lemma lf_occurs_app : forall m (K s : list Z), occurs m s -> occurs m (K ++ s).
+Proof. intros m K s [a [b ->]]. exists (K ++ a), b. rewrite <- app_assoc. reflexivity. Qed.
+
+Lemma lf_countZ_nonneg : forall x l, 0 <= countZ x l.
+Proof.
+  intros x l. induction l as [|y l IH]; [cbn [countZ]; lia|].
+  cbn [countZ]. destruct (x =? y); lia.
+Qed.
+
+Lemma lf_gc_app : forall a b, gc_count (a ++ b) = gc_count a + gc_count b.
+Proof. intros a b. unfold gc_count. rewrite !countZ_app. lia. Qed.
+Lemma lf_at_app : forall a b, at_count (a ++ b) = at_count a + at_count b.
+Proof. intros a b. unfold at_count. rewrite !countZ_app. lia. Qed.
+Lemma lf_gc_nonneg : forall a, 0 <= gc_count a.
+Proof. intros a. unfold gc_count. pose proof (lf_countZ_nonneg chC a). pose proof (lf_countZ_nonneg chG a). lia. Qed.
+Lemma lf_at_nonneg : forall a, 0 <= at_count a.
+Proof. intros a. unfold at_count. pose proof (lf_countZ_nonneg chA a). pose proof (lf_countZ_nonneg chT a). lia. Qed.
+
+(* an A/C/G/T string is made of G+C and A+T characters *)
+Lemma lf_gc_at_length : forall s, chars_P s -> gc_count s + at_count s = Z.of_nat (length s).
+Proof.
+  intros s H. unfold gc_count, at_count. induction H as [|x l Hx Hl IH]; [reflexivity|].
+  cbn [countZ length]. rewrite Nat2Z.inj_succ.
+  destruct (is_acgt_cases x Hx) as [-> | [-> | [-> | ->]]]; vm_compute (_ =? _); lia.
+Qed.
+
+(* ------------------------------------------------------------------------------------------ *)
+(* the core: all windows of K ++ s accepted by the last-window verdict, K one window long       *)
+
+Lemma lf_core : forall c (k : nat) (K s : list Z), Z.of_nat k = f_k c -> (1 <= k)%nat -> window_decidable c ->
+  length K = k ->
+  (forall i, (i <= length s)%nat -> valid c true (window k i (K ++ s)) = true) ->
+  valid c false (K ++ s) = true
+  /\ (f_k c <= Z.of_nat (length s) -> valid c false s = true)
+  /\ (thresholds_coherent c -> valid c false s = true).
+Proof.
+  intros c k K s Ek Hk Hd HK Hwin.
+  assert (H1 : 1 <= f_k c) by lia.
+  assert (Ek' : Z.to_nat (f_k c) = k) by lia.
+  assert (Hlen : length (K ++ s) = (k + length s)%nat) by (rewrite app_length, HK; reflexivity).
+  (* every window passes the whole-sequence check *)
+  assert (HW : forall i, (i <= length s)%nat -> valid c false (window k i (K ++ s)) = true).
+  { intros i Hi. rewrite <- valid_last_on_window; [apply Hwin; exact Hi | exact H1 |].
+    rewrite window_length by lia. exact Ek. }
+  (* part 1 *)
+  assert (P1 : valid c false (K ++ s) = true).
+  { rewrite valid_local_global by (try assumption; lia). rewrite Ek'. apply forallb_forall. intros w Hw.
+    apply In_windows in Hw; [|lia]. destruct Hw as [i [Hi ->]]. apply HW. lia. }
+  (* part 2 *)
+  assert (P2 : f_k c <= Z.of_nat (length s) -> valid c false s = true).
+  { intros Hs. rewrite valid_local_global by assumption. rewrite Ek'. apply forallb_forall. intros w Hw.
+    apply In_windows in Hw; [|lia]. destruct Hw as [i [Hi ->]].
+    rewrite <- (lf_window_shift k i K s), HK. apply HW. lia. }
+  split; [exact P1|]. split; [exact P2|].
+  (* part 3 *)
+  intros Hco. destruct (Z_le_gt_dec (f_k c) (Z.of_nat (length s))) as [Hs|Hs]; [apply P2; exact Hs|].
+  apply (valid_whole c s H1).
+  pose proof (proj1 (valid_whole c (K ++ s) H1) P1) as Ht.
+  apply window_pred_eq in Ht. destruct Ht as [Hch [Hru [Hmo _]]].
+  apply window_pred_eq. unfold chars_P in Hch. apply Forall_app in Hch. destruct Hch as [HchK Hchs].
+  split; [exact Hchs|]. split; [|split].
+  - intros r Er n Hn Ho. apply (Hru r Er n Hn). apply lf_occurs_app. exact Ho.
+  - intros ms Ems m Hm. destruct (Hmo ms Ems m Hm) as [Ha Hb].
+    split; intros Ho; [apply Ha | apply Hb]; apply lf_occurs_app; exact Ho.
+  - intros gmin gmax amax Eg. split; [lia|]. intros _.
+    (* the last window W = (K without its first length s characters) ++ s *)
+    set (n := length s).
+    assert (EW : window k n (K ++ s) = skipn n K ++ s).
+    { unfold window. rewrite skipn_app. replace (n - length K)%nat with O by (unfold n; lia). cbn [skipn].
+      apply firstn_all2. rewrite app_length, skipn_length. unfold n. lia. }
+    pose proof (HW n ltac:(unfold n; lia)) as HWn. rewrite EW in HWn.
+    apply (valid_whole c _ H1) in HWn. apply window_pred_eq in HWn. destruct HWn as [HchW [_ [_ HgW]]].
+    assert (LW : length (skipn n K ++ s) = k) by (rewrite app_length, skipn_length; unfold n; lia).
+    destruct (HgW gmin gmax amax Eg) as [HgW1 _]. rewrite LW in HgW1.
+    specialize (HgW1 ltac:(lia) O ltac:(lia)). rewrite Ek' in HgW1.
+    rewrite window_0_all in HgW1 by lia.
+    pose proof (lf_gc_at_length _ HchW) as Hsum. rewrite LW in Hsum.
+    rewrite lf_gc_app in HgW1, Hsum. rewrite lf_at_app in Hsum.
+    pose proof (lf_gc_nonneg (skipn n K)). pose proof (lf_at_nonneg (skipn n K)).
+    pose proof (lf_gc_nonneg s). pose proof (lf_at_nonneg s).
+    specialize (Hco gmin gmax amax Eg). lia.
+Qed.
+
+(* ------------------------------------------------------------------------------------------ *)
+(* strands of the generated graph                                                              *)
+
+Lemma lf_start_length : forall (k : nat) f mask t V acc v0, (1 <= k)%nat -> 1 <= t ->
+  find_vertices k f = Ok mask -> connect_coding_graph k mask t = Ok (V, acc) -> In v0 V ->
+  length (kmer_string k v0) = k.
+Proof.
+  intros k f mask t V acc v0 Hk Ht Hf Hc Hin.
+  destruct (gp_find_mask k f mask Hf) as [Hl [Hb _]].
+  destruct (generated_wf k t mask V acc v0 Hk Hl Hb Ht Hc Hin) as [_ [_ [_ [_ [[X [_ [_ [_ Hv0]]]] _]]]]].
+  apply gp_kmer_string_length. exact (proj1 Hv0).
+Qed.
 
 Theorem local_filter_strand : forall c (k : nat) mask t V acc v0 s, Z.of_nat k = f_k c -> (1 <= k)%nat -> 1 <= t ->
   window_decidable c ->
@@ -23,6 +136,12 @@ Theorem local_filter_strand : forall c (k : nat) mask t V acc v0 s, Z.of_nat k =
   valid c false (kmer_string k v0 ++ s) = true
   /\ (f_k c <= Z.of_nat (length s) -> valid c false s = true)
   /\ (thresholds_coherent c -> valid c false s = true).
+Proof.
+  intros c k mask t V acc v0 s Ek Hk Ht Hd Hf Hc Hin Hw.
+  apply (lf_core c k (kmer_string k v0) s Ek Hk Hd).
+  - apply (lf_start_length k (valid c true) mask t V acc v0 Hk Ht Hf Hc Hin).
+  - intros i Hi. apply (strand_windows_valid k (valid c true) mask t V acc v0 s Hk Ht Hf Hc Hin Hw i Hi).
+Qed.
 
 (* ... in particular for encoder outputs, both modes, with or without a table *)
 Theorem local_filter_encoded : forall c (k : nat) mask t V acc v0 sh bits fuel s faster, Z.of_nat k = f_k c -> (1 <= k)%nat ->
@@ -32,6 +151,25 @@ Theorem local_filter_encoded : forall c (k : nat) mask t V acc v0 sh bits fuel s
   (if faster : bool then encode_fast fuel bits acc v0 sh else encode_normal fuel (bit_to_number_str bits) acc v0 sh) = Ok s ->
   valid c false (kmer_string k v0 ++ s) = true
   /\ (f_k c <= Z.of_nat (length s) \/ thresholds_coherent c -> valid c false s = true).
+Proof.
+  intros c k mask t V acc v0 sh bits fuel s faster Ek Hk Ht Hd Hf Hc Hin Hp Hbits He.
+  assert (H : valid c false (kmer_string k v0 ++ s) = true
+              /\ (f_k c <= Z.of_nat (length s) -> valid c false s = true)
+              /\ (thresholds_coherent c -> valid c false s = true)).
+  { apply (lf_core c k (kmer_string k v0) s Ek Hk Hd).
+    - apply (lf_start_length k (valid c true) mask t V acc v0 Hk Ht Hf Hc Hin).
+    - intros i Hi.
+      apply (encoded_windows_valid k (valid c true) mask t V acc v0 sh bits fuel s faster Hk Ht Hf Hc Hin Hp Hbits He i Hi). }
+  destruct H as [P1 [P2 P3]]. split; [exact P1|]. intros [Hs|Hco]; [apply P2; exact Hs | apply P3; exact Hco].
+Qed.
+
+(* ------------------------------------------------------------------------------------------ *)
+(* the short-strand clause without coherent thresholds: refuted (finding F8)                    *)
+
+Lemma lf_In_eqb : forall x (l : list Z), existsb (Z.eqb x) l = true -> In x l.
+Proof.
+  intros x l H. apply existsb_exists in H. destruct H as [y [Hy E]]. apply Z.eqb_eq in E. subst y. exact Hy.
+Qed.
 
 (* REFUTED clause (finding F8): with the thresholds binary64 gives for gc_range = [0.8, 1.0], k = 5
    (gc_min = ceil 4.0 = 4, gc_max = 5, at_max = floor 0.9999999999999998 = 0) the one-nucleotide strand T emitted from
@@ -41,4 +179,25 @@ Theorem short_strand_refuted :
   window_decidable c /\ ~ thresholds_coherent c /\
   exists mask V acc, find_vertices 5 (valid c true) = Ok mask /\ connect_coding_graph 5 mask 1 = Ok (V, acc)
     /\ In 85 V /\ is_walk acc 85 [84] /\ valid c false [84] = false /\ valid c false (kmer_string 5 85 ++ [84]) = true.
-*)
+Proof.
+  intros c. split; [|split].
+  - split; intros x E; discriminate E.
+  - intros H. specialize (H 4 5 0 eq_refl). cbn [f_k c] in H. lia.
+  - exists (match find_vertices 5 (valid c true) with Ok m => m | _ => [] end).
+    exists (match connect_coding_graph 5 (match find_vertices 5 (valid c true) with Ok m => m | _ => [] end) 1
+            with Ok (V, _) => V | _ => [] end).
+    exists (match connect_coding_graph 5 (match find_vertices 5 (valid c true) with Ok m => m | _ => [] end) 1
+            with Ok (_, a) => a | _ => [] end).
+    split; [vm_compute; reflexivity|]. split; [vm_compute; reflexivity|]. split; [|split; [|split]].
+    + apply lf_In_eqb. vm_compute. reflexivity.
+    + cbn [is_walk]. exists 3. split; [reflexivity|]. split; [|split; [|exact I]].
+      * unfold in_range. split; vm_compute; [discriminate | reflexivity].
+      * vm_compute. discriminate.
+    + vm_compute. reflexivity.
+    + vm_compute. reflexivity.
+Qed.
+
+Print Assumptions valid_last_on_window.
+Print Assumptions local_filter_strand.
+Print Assumptions local_filter_encoded.
+Print Assumptions short_strand_refuted.
